@@ -205,6 +205,8 @@ class Check:
                     ok = False
                     problems.append(f"{f.name}: forbidden token in: {ln.strip()[:120]}")
         props_txt = self.props_file().read_text()
+        props_txt = re.sub(r"/-.*?-/", "", props_txt, flags=re.S)   # theorem names are read outside comments only
+        props_txt = re.sub(r"--.*", "", props_txt)
         ns = re.search(r"^namespace\s+([\w.]+)", props_txt, flags=re.M)
         prefix = (ns.group(1) + ".") if ns else ""
         names = re.findall(r"^\s*(?:@\[[^\]]*\]\s*)?theorem\s+([\w.']+)", props_txt, flags=re.M)
